@@ -74,7 +74,7 @@ CONTRACTS = [
              prefer_ext={"Executor.run_plan": "Executor.run_plan", "ExecutionPlanner.create_plan_for": "ExecutionPlanner.create_plan_for",
                          "TaskIndex.load_transitive_closure": "TaskIndex.load_transitive_closure(cli)", "Git.rev_parse": "Git.rev_parse(cli)"},
              requires=[C("fresh_invocation", "not g_closure_ok and not g_planned and not g_ran")],
-             modifies=["g_closure_ok", "g_planned", "g_ran", "g_plan_again", "g_plan_at_least", "g_jobs", "g_stop_early", "$alloc"],
+             modifies=["g_root_found", "g_closure_ok", "g_planned", "g_ran", "g_plan_again", "g_plan_at_least", "g_jobs", "g_stop_early", "$alloc"],
              ensures=[C("check_never_plans_or_runs", "implies(args.check, not g_planned and not g_ran)", "C15", "C14"),
                       C("validated_before_anything_runs", "implies(g_planned or g_ran, g_closure_ok)", "C14", "C15"),
                       C("again_passed_through", "implies(g_planned, g_plan_again == args.again)", "C05"),
